@@ -52,6 +52,7 @@ func (fr *frame) freshRef(st *state, name string) string {
 	sc := fr.fc.sc
 	r := sc.define("ref_"+name, "Int", st.alloc)
 	st.alloc = sc.define("alloc", "Int", "(+ "+r+" 1)")
+	fr.fc.hset(st, "ESC", app("store", fr.fc.hget(st, "ESC"), r, "false"))
 	return r
 }
 
@@ -69,11 +70,30 @@ func (fr *frame) execInstr(st *state, in ssa.Instruction) {
 		site := fr.allocSite(v)
 		if si := u.structInfoOf(et); si != nil {
 			fr.storeStruct(st, r, et, site, u.zero(si.name))
+			// object invariants: fields declared never-nil must be initialised right after allocation
+			for i := range si.fields {
+				key, _, _ := u.fieldKey(et, i)
+				if fk, ok := fc.fieldInvOf(key); ok && fr.sweepOn() {
+					inited := false
+					for _, in2 := range v.Block().Instrs {
+						if stx, ok := in2.(*ssa.Store); ok {
+							if fa, ok := stx.Addr.(*ssa.FieldAddr); ok && fa.X == v && fa.Field == i {
+								inited = true
+							}
+						}
+					}
+					cond := "false"
+					if inited {
+						cond = "true"
+					}
+					fr.oblige(st, "fieldinv", fk+".init", v.Pos(), cond, "field "+fk+" must be set by the composite literal that allocates the object")
+				}
+			}
 		} else if isNamed(et, "bytes", "Buffer") {
 			fc.hset(st, "BL", app("store", fc.hget(st, "BL"), r, "0"))
 		} else if at, isArr := et.Underlying().(*types.Array); isArr {
 			es := u.sortOf(at.Elem())
-			key := "A|" + es
+			key := u.arrKey(at.Elem())
 			fc.hset(st, key, app("store", fc.hget(st, key), r, fmt.Sprintf("((as const (Array Int %s)) %s)", es, u.zero(es))))
 		} else {
 			srt := u.sortOf(et)
@@ -98,7 +118,7 @@ func (fr *frame) execInstr(st *state, in ssa.Instruction) {
 			if fr.sweepOn() {
 				fr.oblige(st, "idx", fr.anchorText(v.Pos(), "idx"), v.Pos(), fmt.Sprintf("(and (<= 0 %s) (< %s (sllen %s)))", i, i, s), "index in range")
 			}
-			fr.locs[v] = &Loc{key: "A|" + es, sort: es, idx: []string{app("sref", s), fmt.Sprintf("(+ (soff %s) %s)", s, i)}}
+			fr.locs[v] = &Loc{key: u.arrKey(xt.Elem()), sort: es, idx: []string{app("sref", s), fmt.Sprintf("(+ (soff %s) %s)", s, i)}}
 		case *types.Pointer:
 			at, ok := xt.Elem().Underlying().(*types.Array)
 			if !ok {
@@ -111,7 +131,7 @@ func (fr *frame) execInstr(st *state, in ssa.Instruction) {
 			if _, isConst := v.Index.(*ssa.Const); !isConst && fr.sweepOn() {
 				fr.oblige(st, "idx", fr.anchorText(v.Pos(), "idx"), v.Pos(), fmt.Sprintf("(and (<= 0 %s) (< %s %d))", i, i, at.Len()), "array index in range")
 			}
-			fr.locs[v] = &Loc{key: "A|" + es, sort: es, idx: []string{fr.val(v.X), i}}
+			fr.locs[v] = &Loc{key: u.arrKey(at.Elem()), sort: es, idx: []string{fr.val(v.X), i}}
 		default:
 			fc.abstract("IndexAddr on %s", v.X.Type())
 			fr.locs[v] = nil
@@ -121,8 +141,12 @@ func (fr *frame) execInstr(st *state, in ssa.Instruction) {
 		fr.execUnOp(st, v)
 	case *ssa.Store:
 		val := fr.val(v.Val)
+		fr.markEscaped(st, val, v.Val.Type())
 		if l, ok := fr.locs[v.Addr]; ok {
 			if l != nil {
+				if fk, ok := fc.fieldInvOf(l.key); ok && len(l.path) == 0 && fr.sweepOn() {
+					fr.oblige(st, "fieldinv", fk, v.Pos(), nonNilTerm(val, l.sort), "field "+fk+" must never be nil")
+				}
 				fr.storeLoc(st, l, val)
 			}
 			return
@@ -178,6 +202,26 @@ func (fr *frame) execInstr(st *state, in ssa.Instruction) {
 	case *ssa.Send:
 		fr.execSend(st, v)
 	case *ssa.MakeInterface:
+		// type invariant of the repository's interfaces: a pointer to a repo struct stored in an interface
+		// is never nil (checked here at every creation site, assumed at every type assertion)
+		if pt, ok := v.X.Type().Underlying().(*types.Pointer); ok && u.structInfoOf(pt.Elem()) != nil {
+			if _, isAlloc := v.X.(*ssa.Alloc); !isAlloc && fr.sweepOn() {
+				cond := fmt.Sprintf("(not (= %s 0))", fr.val(v.X))
+				// (value, err) := f(): on the error path the value is discarded by convention; the typed nil
+				// wrapped there is not demanded to be non-nil (assumption A10)
+				if ex, ok := v.X.(*ssa.Extract); ok {
+					if tup, ok := fr.tuples[ex.Tuple]; ok && len(tup) == ex.Index+2 {
+						if call, ok := ex.Tuple.(*ssa.Call); ok {
+							rs := call.Call.Signature().Results()
+							if isErrorType(rs.At(rs.Len() - 1).Type()) {
+								cond = implies(fmt.Sprintf("(= (vtag %s) 0)", tup[len(tup)-1]), cond)
+							}
+						}
+					}
+				}
+				fr.oblige(st, "ifacenn", fr.anchorText(v.Pos(), "stmt"), v.Pos(), cond, "typed nil pointer stored in an interface")
+			}
+		}
 		fr.regs[v] = fr.makeIface(st, fr.val(v.X), v.X.Type())
 	case *ssa.ChangeInterface:
 		fr.regs[v] = fr.val(v.X)
@@ -227,6 +271,7 @@ func (fr *frame) execInstr(st *state, in ssa.Instruction) {
 		md, mv, ks, _ := fc.e.mapKeys(v.Map.Type())
 		m := fr.val(v.Map)
 		k := fr.mapKey(st, fr.val(v.Key), v.Key.Type(), ks)
+		fr.markEscaped(st, fr.val(v.Value), v.Value.Type())
 		if fr.sweepOn() {
 			fr.oblige(st, "mapnil", fr.anchorText(v.Pos(), "stmt"), v.Pos(), fmt.Sprintf("(not (= %s 0))", m), "assignment to entry in nil map")
 		}
@@ -245,7 +290,7 @@ func (fr *frame) execInstr(st *state, in ssa.Instruction) {
 			fr.oblige(st, "make", fr.anchorText(v.Pos(), "callfull"), v.Pos(), fmt.Sprintf("(and (<= 0 %s) (<= %s 1000000000))", ln, ln), "makeslice: len out of range")
 		}
 		r := fr.freshRef(st, "slice")
-		key := "A|" + es
+		key := u.arrKey(stt.Elem())
 		fc.hset(st, key, app("store", fc.hget(st, key), r, fmt.Sprintf("((as const (Array Int %s)) %s)", es, u.zero(es))))
 		fr.regs[v] = sc.define("mkslice", "Slice", fmt.Sprintf("(mkslice %s 0 %s)", r, ln))
 	case *ssa.MakeChan:
@@ -314,6 +359,9 @@ func (fr *frame) execUnOp(st *state, v *ssa.UnOp) {
 			t := sc.define("ld", srt, fr.loadLoc(st, l))
 			fr.regs[v] = t
 			fr.typeInv(st, t, srt, v.Type(), false)
+			if _, ok := fc.fieldInvOf(l.key); ok && len(l.path) == 0 {
+				sc.assume(implies(st.reach, nonNilTerm(t, srt)))
+			}
 			return
 		}
 		if g, ok := v.X.(*ssa.Global); ok {
@@ -443,6 +491,7 @@ func gdiv(a, b string) string {
 
 func (fr *frame) makeIface(st *state, x string, t types.Type) string {
 	u := fr.fc.e.u
+	fr.markEscaped(st, x, t)
 	if _, ok := t.Underlying().(*types.Interface); ok {
 		return x
 	}
@@ -497,6 +546,9 @@ func (fr *frame) execTypeAssert(st *state, v *ssa.TypeAssert) {
 	srt := u.sortOf(v.AssertedType)
 	val := sc.define("asT", srt, ite(ok, fr.unbox(x, v.AssertedType), u.zero(srt)))
 	fr.typeInv(st, val, srt, v.AssertedType, false)
+	if pt, isPtr := v.AssertedType.Underlying().(*types.Pointer); isPtr && u.structInfoOf(pt.Elem()) != nil {
+		sc.assume(implies(ok, fmt.Sprintf("(not (= %s 0))", val)))
+	}
 	if v.CommaOk {
 		fr.tuples[v] = []string{val, ok}
 		return
@@ -555,13 +607,14 @@ func (fr *frame) execConvert(st *state, v *ssa.Convert) {
 		} else {
 			sc.assume(fmt.Sprintf("(and (= (sref %s) %s) (= (soff %s) 0) (<= 0 (sllen %s)) (<= (sllen %s) (slen %s)) (=> (> (slen %s) 0) (> (sllen %s) 0)))", sl, r, sl, sl, sl, x, x, sl))
 		}
-		fr.havocArr(st, u.sortOf(st2.Elem()), r)
+		fr.havocArr(st, st2.Elem(), r)
 		fr.regs[v] = sl
 	case from == "Slice" && to == "Str":
 		r := sc.declare("slicestr", "Str")
 		st2 := v.X.Type().Underlying().(*types.Slice)
 		if bt, ok := st2.Elem().Underlying().(*types.Basic); ok && bt.Kind() == types.Uint8 {
-			sc.assume(fmt.Sprintf("(and (= (slo %s) 0) (= (shi %s) (sllen %s)))", r, r, x))
+			// string(bytes): a view on the array contents at the time of the conversion (strings are immutable)
+			sc.assume(fmt.Sprintf("(= %s (mkstr (select %s (sref %s)) (soff %s) (+ (soff %s) (sllen %s))))", r, fr.fc.hget(st, u.arrKey(st2.Elem())), x, x, x, x))
 		} else {
 			sc.assume(fmt.Sprintf("(and (= (slo %s) 0) (>= (shi %s) (sllen %s)))", r, r, x))
 		}
@@ -574,8 +627,9 @@ func (fr *frame) execConvert(st *state, v *ssa.Convert) {
 	}
 }
 
-func (fr *frame) havocArr(st *state, es string, ref string) {
-	key := "A|" + es
+func (fr *frame) havocArr(st *state, elem types.Type, ref string) {
+	es := fr.fc.e.u.sortOf(elem)
+	key := fr.fc.e.u.arrKey(elem)
 	fresh := fr.fc.sc.declare("arr", "(Array Int "+es+")")
 	fr.fc.hset(st, key, app("store", fr.fc.hget(st, key), ref, fresh))
 }
